@@ -615,6 +615,12 @@ class Program:
                 full = self.impl_index_full.get(("From", norm_ty(selfty), norm_ty(targs), "from"))
                 if full and len(full) == 1:
                     return full[0]
+            if targs:
+                # `<PathBuf as From<&PathBuf>>::from` must not land in the crate's only `impl From<&EnvironmentDirectory> for PathBuf`:
+                # an impl whose (non-generic) trait arguments are known and differ is not the callee
+                cands = [k for k in self.impl_index_full if k[0] == base_name(trait) and k[2] == norm_ty(selfty) and k[3] == method]
+                if cands and all(k[1] and k[1] != norm_ty(targs) and not re.search(r"\b[A-Z]\b", k[1]) for k in cands):
+                    return None
             key = (base_name(mo.group(2)), base_name(mo.group(1)), mo.group(3))
         else:
             mo2 = re.search(r"<impl ([A-Za-z_][A-Za-z0-9_:]*)(?:<.*>)?>::([A-Za-z_][A-Za-z0-9_]*)$", name)
@@ -893,6 +899,12 @@ class Ctx:
             raise BoundExceeded("call depth > 200")
         try:
             return self.run(f, args)
+        except (Unsupported, Panic) as e:
+            if not hasattr(e, "mir_stack"):
+                e.mir_stack = []
+            if len(e.mir_stack) < 6:
+                e.mir_stack.append(fname)        # innermost first: where in the MIR the engine gave up (diagnostics only)
+            raise
         finally:
             self.depth -= 1
 
@@ -962,6 +974,16 @@ class Ctx:
                         raise Panic("assert failed: %s" % st[3])
                     nxt = st[4]
                 elif k == "drop":
+                    hook = getattr(self.ex.models, "on_drop", None)
+                    if hook is not None:
+                        # resource-tracking harnesses (C18): the value that dies here (drop elaboration has already removed the
+                        # drops of moved-out places, so every executed drop is the death of a live value)
+                        try:
+                            v = self.place_loc(fr, st[1]).get()
+                        except Unsupported:
+                            v = None
+                        if v is not None:
+                            hook(self, v)
                     nxt = st[2]
                 elif k == "unreachable":
                     raise Unsupported("reached `unreachable` in %s bb%d" % (f.name, bb))
